@@ -298,7 +298,8 @@ func (s *MemoryBackend) read(ctx context.Context, store string, filter storage.R
 	defer s.mutexTuples.RUnlock()
 
 	var matches []*storage.TupleRecord
-	if filter.Object == "" && filter.Relation == "" && filter.User == "" {
+	// With a condition filter the tuples go through the filtering branch even if the tuple key is empty.
+	if filter.Object == "" && filter.Relation == "" && filter.User == "" && len(filter.Conditions) == 0 {
 		matches = make([]*storage.TupleRecord, len(s.tuples[store]))
 		copy(matches, s.tuples[store])
 	} else {
